@@ -13,7 +13,7 @@ ASSUMPTIONS = ["the function only moves the ids, so object identity / equality o
 
 
 def colls(tier):
-    out = [("list", 1, 1), ("list", 3, 1), ("list", 4, 1), ("arr1", 3, 1), ("arr2", 2, 2), ("arr2", 2, 3), ("list", 0, 1), ("trough", 4, 2), ("troughcol", 4, 2)]
+    out = [("list", 1, 1), ("list", 3, 1), ("list", 4, 1), ("replist", 3, 1), ("arr1", 3, 1), ("arr2", 2, 2), ("arr2", 2, 3), ("list", 0, 1), ("trough", 4, 2), ("troughcol", 4, 2)]
     if tier == "thorough":
         out += [("list", 8, 1), ("arr2", 3, 4), ("arr2", 8, 1)]
     return out
@@ -40,6 +40,9 @@ def scenario(ctx, p):
     kind, a, b = p["coll"]
     if kind == "list":
         wells = [f"W{i:02d}" for i in range(a)]
+        colmajor = list(wells)
+    elif kind == "replist":
+        wells = ["W00", "W00", "W01"][:a]   # a well listed twice is offered twice per cycle
         colmajor = list(wells)
     elif kind == "arr1":
         colmajor = [f"W{i:02d}" for i in range(a)]
